@@ -25,7 +25,7 @@ func init() {
 			"what is decided here is the history/schedule clause of the property (first use = later use = concurrent use); the priority rule itself is input-quantified and only cross-checked by a small reference model on the generated family",
 			"values are placed only in sources that the field names in its tags (the form getter's documented fallback to the query string is not part of the model)",
 		},
-		RequiredProbes: []string{"yield:bindTag.miss", "yield:bindTag.store", "concurrent-first-use", "warm-hit", "cold-miss", "required-missing", "default-used", "json-source", "path-source", "untagged-field", "empty-value"},
+		RequiredProbes: []string{"yield:bindTag.miss", "yield:bindTag.store", "yield:bind.text", "concurrent-first-use", "warm-hit", "cold-miss", "required-missing", "default-used", "json-source", "path-source", "untagged-field", "empty-value"},
 	}
 }
 
